@@ -89,6 +89,11 @@ func c18Gen(rng *verifsim.RNG, idx int, tier string) *Plan {
 		if rng.Bool(0.05) {
 			a.Hop = ip(rng.Intn(255)) // an invalid one in between
 		}
+		if a.Kind == "ra" && rng.Bool(0.1) {
+			// a different RA of the same router in the socket right behind this one
+			t := Action{At: a.At, If: "eth0", Src: a.Src, Kind: "ra", RA: genPeerRA(rng, true)}
+			a.Then = &t
+		}
 		p.Actions = append(p.Actions, a)
 	}
 	if rng.Bool(0.3) {
